@@ -63,7 +63,7 @@ class C12(Check):
     PROBES = ('c12.peer-mode', 'c12.e2e-mode', 'c12.proxy-mode', 'c12.driver-update', 'c12.mirror-compared',
               'c12.concurrent-writes', 'c12.malformed', 'c12.future-timestamp',
               'c12.shorthand', 'c12.raising-callback', 'c12.oneshot-callback', 'c12.proxy-drop',
-              'c12.node-restart-added', 'c12.node-restart-changed', 'c12.node-restart-same')
+              'c12.node-restart-added', 'c12.node-restart-changed', 'c12.node-restart-same', 'c12.partial-struct-written')
 
     def gen_case(self, rng, tier):
         mode = rng.choice(['peer', 'peer', 'e2e', 'e2e', 'proxy'])
@@ -163,6 +163,21 @@ class C12(Check):
                         ops.append({'op': 'set', 'm': s['name'], 'p': p['name'], 'v': dtgen.valid_wire(rng, p['di']),
                                     'ret': rng.choice(['same', 'other']),
                                     'v2': dtgen.valid_wire(rng, p['di'])})
+                        if dtgen.has_struct(p['di']) and rng.random() < 0.4:
+                            # the complete value is written first, then the same with optional members of structs (at any
+                            # depth) left out: the node fills them in from the current value
+                            def prune(di, w):
+                                if di['type'] == 'array':
+                                    return [prune(di['members'], e) for e in w]
+                                if di['type'] == 'tuple':
+                                    return [prune(m, e) for m, e in zip(di['members'], w)]
+                                if di['type'] == 'struct':
+                                    opt = di['optional'] if 'optional' in di else list(di['members'])
+                                    return {k: prune(di['members'][k], e) for k, e in w.items()
+                                            if k not in opt or rng.random() < 0.5}
+                                return w
+                            ops[-1]['partial'] = prune(p['di'], ops[-1]['v'])
+                            ops[-1]['ret'] = 'same'
                 elif r < 0.62 and [p for p in s['params'] if not p['readonly'] and p.get('write')]:
                     # two threads write different values to the same parameter through the one client while the
                     # hardware is slow: both must reach the driver, each caller gets its own result
@@ -415,6 +430,9 @@ class C12(Check):
                     if op['ret'] == 'other':
                         drv.override[op['m'], 'write_' + op['p']] = dtgen.to_internal(di, op['v2'])
                     item = cl.setParameter(op['m'], op['p'], dtgen.to_internal(di, op['v']))
+                    if op.get('partial') is not None:
+                        sim.count('c12.partial-struct-written')
+                        item = cl.setParameter(op['m'], op['p'], dtgen.to_internal(di, op['partial']))
                     rec['cache'] = self._item(di, item)
                 elif op['op'] == 'pairset':
                     di = di_of[op['m'], op['p']]
@@ -685,8 +703,20 @@ class C12(Check):
                 di = p['di']
                 writes = [c for c in rec['calls'] if c['kind'] == 'write' and c['name'] == op['p'] and c['mod'] == op['m']]
                 if p.get('write'):
-                    if len(writes) != 1:
+                    if len(writes) != 1 and op.get('partial') is None:
                         res.append(Violation('C12.driver-calls', f'{tag}|set', f'{op}: driver write calls {writes}'))
+                        continue
+                    if op.get('partial') is not None:
+                        # two writes: the complete value, then the same value with optional members left out
+                        if len(writes) != 2 or not all(dtgen.wire_equal(di, op['v'], w_['arg']) for w_ in writes):
+                            res.append(Violation('C12.value-changed-on-the-way', f'{tag}|partial|{di["type"]}',
+                                                 f'setParameter({op["m"]}, {op["p"]}, {op["v"]!r}) and then again with '
+                                                 f'optional members left out ({op["partial"]!r}): the driver received '
+                                                 f'{[w_["arg"] for w_ in writes]!r} (datainfo {di})'))
+                        elif rec['cache'][0] != 'ok' or not dtgen.wire_equal(di, op['v'], rec['cache'][1]):
+                            res.append(Violation('C12.readback-mismatch', f'{tag}|partial|{di["type"]}',
+                                                 f'setParameter({op["m"]}, {op["p"]}, {op["partial"]!r}): client cache holds '
+                                                 f'{rec["cache"]!r}, the node {op["v"]!r}'))
                         continue
                     if not dtgen.wire_equal(di, op['v'], writes[0]['arg']):
                         res.append(Violation('C12.value-changed-on-the-way', f'{tag}|{di["type"]}',
